@@ -51,7 +51,7 @@ def required(tier):
     cl = [f'range:{k}' for k in ('single', 'week', 'dst-spring', 'dst-autumn', 'months', 'year',
                                  'open-from', 'open-to', 'open-both',
                                  'open-to-from-previous-year', 'open-from-to-next-year')]
-    cl += ['airport:patch-file']
+    cl += ['airport:patch-file', 'path:convert_oag_data']
     cl += [f'skip:{k}' for k in ('service', 'stops', 'non-operating', 'equipment',
                                  'unknown-airport', 'distance')]
     cl += ['accepted', 'offset:-1', 'offset:0', 'offset:1', 'offset:2', 'instances:dropped',
@@ -261,6 +261,34 @@ def one_batch(rng, hdir: Path, w: dict, rec, k, nrows, case0):
     if nxt is not None:
         raise Mismatch('the database contains a flight record no input row accounts for',
                        {'flight': list(nxt), **case0, 'k': k})
+    # ---- the command-line conversion path must produce the same database ---------------
+    if not errors and k % 2 == 0:
+        from AEIC.missions.oag import convert_oag_data
+        db2 = hdir / f'oag{k}_cli.sqlite'
+        convert_oag_data(str(csvp), year, str(db2), warnings_file=str(hdir / f'warn{k}.txt'))
+        con = sqlite3.connect(str(db2))
+        try:
+            fl2 = con.execute(
+                'SELECT f.carrier, f.flight_number, ao.iata_code, ad.iata_code, '
+                'f.departure_time, f.number_of_flights, f.effective_from, f.effective_to '
+                'FROM flights f JOIN airports ao ON ao.id = f.origin '
+                'JOIN airports ad ON ad.id = f.destination ORDER BY f.id').fetchall()
+            n_s2 = con.execute('SELECT COUNT(*), SUM(departure_timestamp), SUM(arrival_timestamp) '
+                               'FROM schedules').fetchone()
+        finally:
+            con.close()
+        fl1 = [(f[1], f[2], f[3], f[4], f[6], f[15], f[13], f[14]) for f in flights]
+        s1 = (sum(len(v) for v in sched.values()),
+              sum(d for v in sched.values() for d, _, _ in v) or None,
+              sum(a for v in sched.values() for _, a, _ in v) or None)
+        rec.ev()
+        if fl1 != fl2 or tuple(n_s2) != s1:
+            raise Mismatch('convert_oag_data produces a different database than adding the same '
+                           'rows one by one', {'flights_direct': len(fl1), 'flights_cli': len(fl2),
+                                               'schedules_direct': s1, 'schedules_cli': list(n_s2),
+                                               **case0, 'k': k})
+        rec.cls('path:convert_oag_data')
+        db2.unlink(missing_ok=True)
     dbp.unlink(missing_ok=True)
     csvp.unlink(missing_ok=True)
     return rows[0]
